@@ -3,7 +3,7 @@ from props import _ops, _proc
 import dsgcase
 
 ID = 'C05'
-CLAUSES = {'fixed-value-not-respected', 'corrected-vector-out-of-range', 'decode-differs-from-fresh-processor', 'returned-instance-not-pristine', 'create-flag-changes-result',
+CLAUSES = {'fast-decode-differs-from-model', 'fixed-value-not-respected', 'corrected-vector-out-of-range', 'decode-differs-from-fresh-processor', 'returned-instance-not-pristine', 'create-flag-changes-result',
            'enumeration-differs-from-fresh-processor', 'statistics-differ-from-fresh-processor', 'operation-raises'}
 RULE = ('G-sel graphs with 0-2 design-variable nodes (90% outside the known-finding classes) x {complete, complete, fast} x a random '
         'history of 6-12 operations over {decode(x, create), enumerate, statistics, fix, free, mutate the last returned instance, '
